@@ -293,6 +293,11 @@ func (fc *followerController) NewTerm(req *proto.NewTermRequest) (*proto.NewTerm
 	fc.status = proto.ServingStatus_FENCED
 	fc.closeStreamNoMutex(nil)
 
+	// Entries that were appended but not yet synced are part of the log: they must be included in the
+	// head we report, the log must not grow after we have answered
+	if err := fc.wal.Sync(context.Background()); err != nil {
+		return nil, err
+	}
 	lastEntryId, err := getLastEntryIdInWal(fc.wal)
 	if err != nil {
 		fc.log.Warn(
